@@ -64,6 +64,27 @@ Fixpoint p3_check (ops : list op) (items : list item) (prev : option (list view 
   | _, _ => true
   end.
 
+(* the literal form of P3 (DESIGN 5/C10): total after the merge within total + delta BEFORE it.  It fails on the repaired provider,
+   and must: an element mentioned for the first time becomes a node of total in the very merge that also serves its reflexive pair as
+   delta, so the pair is readable from total and from delta in the same round (wit_f10_literal below).  The semi-naive argument only
+   needs the weaker [p3_check]: a tuple that is new in total and served by delta at the same read is covered by the delta variants
+   of the coming iteration. *)
+Fixpoint p3_literal_check (ops : list op) (items : list item) (prev : option (list view * list view)) : bool :=
+  match ops, items with
+  | o :: ops', it :: items' =>
+    match o, it with
+    | OStart, RRead d t => p3_literal_check ops' items' (Some (d, t))
+    | OMerge, RRead d t =>
+      match prev with
+      | Some (pd, pt) =>
+        forallb (fun x => incl_b (vtuples (fst x)) (vtuples (snd (snd x)) ++ vtuples (fst (snd x)))) (combine t (combine pd pt))
+      | None => true
+      end && p3_literal_check ops' items' (Some (d, t))
+    | _, _ => p3_literal_check ops' items' prev
+    end
+  | _, _ => true
+  end.
+
 Definition has_panic (e : err) (items : list item) : bool :=
   existsb (fun it => match it with RPanic _ e' => Z.eqb (err_code e) (err_code e') | _ => false end) items.
 
@@ -80,6 +101,9 @@ Definition wit_f10 : list op := [OStart; OHead 0 0 1; OMerge; OHead 0 1 2; OMerg
 Lemma wit_f10_passes : protocol_ok wit_f10 = true /\ p3_check wit_f10 (run_bin 3 wit_f10) None = true /\
   (let '(d, t) := last_read (run_bin 3 (firstn 5 wit_f10)) in lmem [2; 2] (served 0 d) = true /\ lmem [2; 2] (served 0 t) = true).
 Proof. vm_compute. repeat split; reflexivity. Qed.
+
+Lemma wit_f10_literal : p3_literal_check wit_f10 (run_bin 3 wit_f10) None = false.
+Proof. vm_compute. reflexivity. Qed.
 
 (* F5: key 0 receives a fact, pauses for one merge, receives another one *)
 Definition wit_f5 : list op := [OStart; OHead 0 0 1; OMerge; OMerge; OHead 0 1 2; OMerge; OMerge; OEnd].
@@ -930,7 +954,10 @@ Section Protocol.
     - (* delta is Total-shaped: total is the empty Total *)
       inversion Hsh; subst tt.
       assert (Heq : c_merge n (CTotal dt) (CTotal tr_empty) = merge_body nrel [] dt).
-      { unfold c_merge, merge_body. cbn [common_is_empty t_ids tr_empty isnil bind d_default d_prec]. rewrite Hun. cbn [bind]. reflexivity. }
+      { unfold c_merge, merge_body. destruct (tr_is_empty dt) eqn:Hemp.
+        - cbn [common_is_empty t_ids isnil bind d_default d_prec]. rewrite Hun. cbn [bind].
+          change (tr_is_empty tr_empty) with true. reflexivity.
+        - cbn [common_is_empty t_ids tr_empty isnil bind d_default d_prec]. rewrite Hun. cbn [bind]. rewrite Hemp. reflexivity. }
       rewrite Heq. destruct Hd as [Et [HE Hs]].
       apply (merge_body_ok Ins nrel [] dt Et Hnrel (fun p (H : In p []) => match H with end) HE Hs).
   Qed.
@@ -996,20 +1023,18 @@ Section Protocol.
       destruct ox as [xs|]; [|eexists; split; [reflexivity|discriminate]].
       destruct (I_elem HI Et st y HE) as [oy [Hey Hmy]]. rewrite Hey. cbn [bind].
       destruct oy as [ys|]; [|eexists; split; [reflexivity|discriminate]].
-      destruct (Nat.eqb xs ys); [eexists; split; [reflexivity|discriminate]|].
       destruct (aget xs (d_conn d)) as [c|] eqn:Hcx; [|eexists; split; [reflexivity|discriminate]].
       eexists; split; [reflexivity|]. intros Hb. apply smem_in in Hb. apply aget_in in Hcx.
       eapply RC; try eassumption; [apply Hmx|apply Hmy]; reflexivity.
     - unfold d_iter_all. fold st.
-      rewrite (mapM_ok _ _ _ (fun kv => list_prod (gs st (fst kv)) (concat (map (gs st) (filter (fun s => negb (Nat.eqb s (fst kv))) (snd kv))))) (d_conn d)).
+      rewrite (mapM_ok _ _ _ (fun kv => list_prod (gs st (fst kv)) (concat (map (gs st) (snd kv)))) (d_conn d)).
       + cbn [bind]. eexists; split; [reflexivity|]. intros x y Hin.
         apply in_concat in Hin. destruct Hin as [l [Hl Hxy]]. apply in_map_iff in Hl. destruct Hl as [[k s] [<- Hk]].
         cbn [fst snd] in Hxy. apply in_prod_iff in Hxy. destruct Hxy as [Hx Hy].
-        apply in_concat_gs in Hy. destruct Hy as [b [Hb Hyb]]. apply filter_In in Hb. destruct Hb as [Hb _].
+        apply in_concat_gs in Hy. destruct Hy as [b [Hb Hyb]].
         eapply RC; try eassumption. apply mem_of_gs; exact Hx.
       + intros [k s] Hk. cbn [fst snd]. destruct (dmap_vmap _ _ _ Hc _ _ Hk) as [Hkl Hsl].
-        rewrite set_at_ok by exact Hkl. cbn [bind]. rewrite sets_of_ok; [reflexivity|].
-        intros b Hb. apply filter_In in Hb. apply Hsl, Hb.
+        rewrite set_at_ok by exact Hkl. cbn [bind]. rewrite sets_of_ok by exact Hsl. reflexivity.
     - apply (d_ind_get_sound d (d_conn d) (fun x y => rtc Ins x y) Et HE (dmap_vmap _ _ _ Hc) RC).
     - apply (d_ind_get_sound d (d_rev d) (fun x y => rtc Ins y x) Et HE (dmapr_vmap _ _ _ Hv) RV).
     - apply (d_ind_iter_all_sound d (d_conn d) (fun x y => rtc Ins x y) (dmap_vmap _ _ _ Hc) RC).
